@@ -8,6 +8,55 @@ import sys
 ROOT = os.path.dirname(os.path.dirname(os.path.abspath(__file__)))
 
 CLAIMED = {
+    "C19": dict(
+        category="model_checking",
+        text="TLC checks a code-shaped model of compute_repairs/query_with_repairs (stack, seen set, insertion-time maximality test, every "
+             "HashSet iteration order as a nondeterministic permutation, final maximality filter) against the requirement (repairs = "
+             "subset-maximal consistent subsets, answers = facts of every repair, conflict-free facts answered) for all fact sets of a small "
+             "universe x 7 constraint sets, with the historic search as negative control; every instance of the universe and seeded random "
+             "fact/constraint/goal/rule sets are executed on the real Reasoner several times with fresh hash states; every call of "
+             "query_with_repairs and infer_new_facts_semi_naive_with_repairs is judged by a TLA+ trace specification (TLC enumerates all subsets).",
+        design_ref="DESIGN.md section 5 (C19)",
+        note="Trusted: TLC, Json module, recording harness (harness/src/c19.rs). Constraints = positive bodies with >= 1 atom, no filters; "
+             "<= 8 facts. Hash orders on the real code are sampled (fresh SipHash keys per call, two processes), all orders only on the model. "
+             "Materialisation: only consistency of the final fact set is required (as the property states).",
+        technique="TLA+ model checking of a code-shaped search model over all iteration orders (TLC) + exhaustive small-universe replay + "
+                  "trace validation against the TLA+ requirement",
+    ),
+    "C18": dict(
+        category="model_checking",
+        text="TLC checks a code-shaped model of backward_chaining.rs (explicit variable names, binding maps with resolve, global "
+             "renaming counter with the reserved-name rule, per-visit rule renaming, depth cut) against the requirement (answers sound "
+             "w.r.t. the least model, complete for TP^MaxDepth) for every goal over a small universe whose variables are called like "
+             "rule variables or like engine-generated names v<k>; every such instance is replayed on the real Reasoner::backward_chaining "
+             "with the model's predicted answer set, and seeded random programs (chains around the depth bound 10, stratified programs "
+             "with arbitrary term shapes, linear recursion on cyclic graphs) x goal shapes x three naming schemes are recorded; every "
+             "call is judged by a TLA+ trace specification in which TLC computes LFP(R,F) and TP^10(F).",
+        design_ref="DESIGN.md section 5 (C18)",
+        note="Trusted: TLC, Json module, recording harness (harness/src/c18.rs: resolve_term applied to the goal variables). Safe positive "
+             "rules without filters, ground facts, no quoted triples. Facts deeper than the bound are only required to be sound. "
+             "Exhaustive only for the programs/goal universe of MCBackChain.tla; L3 programs restricted to linear recursion.",
+        technique="TLA+ model checking of a code-shaped SLD model (TLC) + spec-to-impl replay with model prediction + trace validation "
+                  "against the TLA+ requirement (TLC computes least model and bounded TP iteration)",
+    ),
+    "C05": dict(
+        category="model_checking",
+        text="TLC checks a code-shaped model of the fixpoint driver and the semi-naive / naive strategies (fact vector, known set, delta "
+             "window start_idx_for_delta, two strata for negation as failure, second run, arbitrary vector and rule order) against the "
+             "TLA+ definition of the least / stratified model (Match, TP, LFP, Model) for every safe program of several small families "
+             "and every small fact set; the enumerated programs with the predicted rounds, hand-written programs and seeded random safe "
+             "programs (1..4 premises, constants / repeated variables anywhere, variable predicates, several conclusions, numeric and "
+             "identity filters, one stratum of negation, <= 25 facts) are materialised by the real Reasoner with all four strategies "
+             "under several rule / fact orders plus a second run; every returned fact set, store and second run is validated by the "
+             "TLA+ trace specification in which TLC computes the model.",
+        design_ref="DESIGN.md section 5 (C05)",
+        note="Trusted: TLC, Json module, recording harness (harness/src/c05.rs). Exhaustive only within the program families of "
+             "tla/datalog/MC_*.cfg; beyond them sampled executions. Negation is judged for programs that pass the syntactic one-stratum "
+             "test Stratified; numeric filters only on numerals; provenance strategy with BooleanProvenance only (tags: C06); rayon "
+             "schedules are not controlled. Known finding F-C05c (provenance strategy: single NAF pass).",
+        technique="TLA+ model checking of a code-shaped evaluator against a denotational model (TLC) + spec-to-impl replay + trace "
+                  "validation with TLC as the oracle",
+    ),
     "C07": dict(
         category="model_checking",
         text="A TLA+ requirement (BoolFun.tla) gives every handle of the decision-diagram manager a truth table over the registered "
